@@ -5,10 +5,9 @@
 // quiet no-op).
 #include "common/verif.hpp"
 extern "C" {
-// hash.h defined cstl_hash_size/load with external linkage before finding F1 was
-// repaired; rename them here so this TU links against hash.o either way.
-#define cstl_hash_size hdr_cstl_hash_size
-#define cstl_hash_load hdr_cstl_hash_load
+// hash.h defined cstl_hash_size/load with external linkage before finding F1 was repaired: this harness is linked with
+// --allow-multiple-definition (vplans.HARNESS) so that it links whether they are external definitions in the header,
+// static inline, or declared in the header and defined in hash.c
 #include "cstl/hash.h"
 }
 #include <cmath>
@@ -692,7 +691,7 @@ bool apply(int op, uint8_t a, uint8_t b, uint8_t c, int ntab, size_t K, size_t m
         ClearCtx cc{&t, {}, 0, false};
         for (auto &kv : t.model) for (Elem *e : kv.second) cc.expect.insert(e);
         size_t n0 = t.n;
-        bool with_cb = (c & 3) != 3 || n0 > 0;     // a NULL callback only on an empty table (elements would leak)
+        bool with_cb = (c & 3) != 3;               // NULL callback: the caller keeps the elements (freed below by the harness)
         bool grow_reloc = peek_relocated_beyond(t), pend = peek_pending(t);
         bool shrinkp = pend && t.h.bucket.rh.count < t.h.bucket.count;
         g_clear = &cc;
@@ -702,7 +701,18 @@ bool apply(int op, uint8_t a, uint8_t b, uint8_t c, int ntab, size_t K, size_t m
         if (grow_reloc) { cx.enum_grow_relocated = true; CNT("class.clear.grow_relocated"); }
         if (shrinkp) { cx.enum_shrink = true; CNT("class.clear.shrink_pending"); }
         CHECK(!cc.bad, "C04.clear.once", "%s clear handed an object to the callback twice or one that is not a live element", t.tag);
-        CHECK(cc.calls == n0 && cc.expect.empty(), "C04.clear.all", "%s clear made %zu callbacks for %zu live elements", t.tag, cc.calls, n0);
+        if (with_cb) CHECK(cc.calls == n0 && cc.expect.empty(), "C04.clear.all", "%s clear made %zu callbacks for %zu live elements", t.tag, cc.calls, n0);
+        else {
+            CNT("class.clear.null_callback_nonempty");
+            for (const Elem *e : cc.expect) P.kill((Elem *)e);
+            cc.expect.clear();
+        }
+        {
+            // every element has been removed: the table is empty (also when no callback was given)
+            size_t sz;
+            LIB(sz = cstl_hash_size(&t.h));
+            CHECK(sz == 0, cx.c04 ? "C04.clear.size" : PF("C03.size", "C16.hash.size"), "%s size %zu after clear of %zu elements", t.tag, sz, n0);
+        }
         t.model.clear();
         t.phys.clear();
         fresh_clear(t.where);
@@ -732,7 +742,7 @@ void run_op(int op, uint8_t a, uint8_t b, uint8_t c, int ntab, size_t K, size_t 
     Table &t = T[a % ntab];
     bool pend = peek_pending(t);
     try {
-        ab = may_abort([&] { in_lib--; apply(op, a, b, c, ntab, K, maxlive); in_lib++; });
+        ab = may_abort([&] { in_lib = in_lib - 1; apply(op, a, b, c, ntab, K, maxlive); in_lib = in_lib + 1; });
     } catch (...) { g_abort_armed = 0; throw; }
     if (g_bad_delivered) {
         if (pend) CNT("class.c17.bad_while_pending"); else CNT("class.c17.bad_plain");
